@@ -19,7 +19,7 @@ RULE = ("one TransitSender + one TransitReceiver with the derived key; 1-3 addre
         "contenders, number of links, outcome, which path won).")
 ASSUMPTIONS = ["virtual time: the deadline clause is decided on the simulated clock"]
 FLOORS = {"quick": {"both_connected": 300, "no_path_cases": 40, "stranger_links": 200, "links": 1000},
-          "thorough": {"both_connected": 12000, "no_path_cases": 1500, "stranger_links": 8000, "links": 80000}}
+          "thorough": {"both_connected": 12000, "no_path_cases": 1500, "stranger_links": 8000, "links": 40000}}
 ADDRS = ["10.0.0.1", "10.0.0.2", "10.0.0.3"]
 
 
